@@ -9,22 +9,78 @@ pub use model::*;
 pub use oracle::*;
 pub use stubs::*;
 
+use crate::{ChunkSize, NumThreads, Params};
+use std::num::NonZeroUsize;
+
+pub fn any_data() -> [u8; MAXN] {
+    // element-wise: `kani::any::<[T; 4]>()` contains a 4-iteration loop that would dictate the unwind bound
+    [kani::any(), kani::any(), kani::any(), kani::any()]
+}
+
 /// iterator as seen by ONE worker (worker 0): it receives exactly the blocks k with mine[k];
 /// all other blocks go to somebody else (worker 1). `mine` is concrete per harness (symbolic block
 /// masks exhaust CBMC's memory); the generator enumerates the masks.
-pub fn single_worker_iter(n: usize, c: usize, mine: [bool; MAXN]) -> (ModelIter, [u8; MAXN], [bool; MAXN]) {
-    let data: [u8; MAXN] = kani::any();
-    let mut owner = [1u8; MAXN];
-    let mut k = 0;
-    while k < MAXN {
-        if mine[k] {
-            owner[k] = 0;
-        }
-        k += 1;
-    }
-    (ModelIter::new(data, n, c, owner), data, mine)
+pub fn single_worker_iter<'a>(log: &'a Log, n: usize, c: usize, mine: [bool; MAXN]) -> (ModelIter<'a>, [u8; MAXN]) {
+    let data = any_data();
+    let owner = [
+        if mine[0] { 0u8 } else { 1u8 },
+        if mine[1] { 0u8 } else { 1u8 },
+        if mine[2] { 0u8 } else { 1u8 },
+        if mine[3] { 0u8 } else { 1u8 },
+    ];
+    (ModelIter::new(log, data, n, c, owner), data)
 }
 
-pub fn block_of(i: usize, c: usize) -> usize {
-    i / c
+/// a run with `workers` workers, all started with chunk size c (harness-chosen instance of the
+/// Runner contract), over a source of n symbolic elements split into blocks of c owned per `owner`
+pub fn multi_worker_iter<'a>(log: &'a Log, n: usize, c: usize, owner: [u8; MAXN], workers: usize) -> (ModelIter<'a>, [u8; MAXN]) {
+    let data = any_data();
+    set_run(workers, c, c, c);
+    (ModelIter::new(log, data, n, c, owner), data)
+}
+
+pub fn nz(x: usize) -> NonZeroUsize {
+    NonZeroUsize::new(x).unwrap()
+}
+
+/// parallel parameters consistent with the harness-chosen run (k workers, chunk c)
+pub fn par_params(workers: usize, c: usize) -> Params {
+    Params { num_threads: NumThreads::Max(nz(if workers < 2 { 2 } else { workers })), chunk_size: ChunkSize::Exact(nz(c)) }
+}
+
+pub fn seq_params() -> Params {
+    let cs: usize = kani::any();
+    let chunk_size = if cs == 0 {
+        ChunkSize::Auto
+    } else if kani::any() {
+        ChunkSize::Exact(nz(cs))
+    } else {
+        ChunkSize::Min(nz(cs))
+    };
+    Params { num_threads: NumThreads::Max(nz(1)), chunk_size }
+}
+
+pub fn runner_called_once_with(params: Params) -> bool {
+    let calls = unsafe { RUNNER_CALLS };
+    calls == 1 && runner_got(params)
+}
+
+pub fn vec_with(pre: E) -> Vec<E> {
+    let mut v = Vec::with_capacity(2);
+    v.push(pre);
+    v
+}
+
+pub fn split_with(pre: E) -> orx_split_vec::SplitVec<E> {
+    use orx_pinned_vec::PinnedVec;
+    let mut v = orx_split_vec::SplitVec::new();
+    v.push(pre);
+    v
+}
+
+pub fn fixed_with(pre: E) -> orx_fixed_vec::FixedVec<E> {
+    use orx_pinned_vec::PinnedVec;
+    let mut v = orx_fixed_vec::FixedVec::new(8);
+    v.push(pre);
+    v
 }
